@@ -123,7 +123,9 @@ type blCfg struct {
 	Incl     []string    `json:"incl_ns,omitempty"`
 	Excl     []string    `json:"excl_ns,omitempty"`
 	SelApps  []string    `json:"sel_apps,omitempty"`
-	EvPrio   int32       `json:"evictor_prio,omitempty"` // evictor refuses pods with priority >= EvPrio (0 = off)
+	EvPrio   int32       `json:"evictor_prio,omitempty"`     // evictor refuses pods with priority >= EvPrio (0 = off)
+	LimitBy  string      `json:"evictor_limit_by,omitempty"` // stateful evictor filter: at most LimitK evictions per app | ns | node in one round
+	LimitK   int         `json:"evictor_limit_k,omitempty"`
 	Nodes    []blNodeCfg `json:"nodes"`
 	Pods     []blPodCfg  `json:"pods"`
 }
@@ -248,6 +250,10 @@ func (blEngine) Generate(p *sim.Plan, g *sim.Rng) {
 	if g.Bool(0.3) {
 		cfg.EvPrio = int32(g.PickInt(9500, 7000, 9999))
 	}
+	if g.Bool(0.3) {
+		// koordinator's arbitrating evictor: max migrating pods per workload / namespace / node
+		cfg.LimitBy, cfg.LimitK = g.Pick("app", "app", "ns", "node"), g.PickInt(1, 1, 2)
+	}
 	// ---- nodes and pods
 	nNodes := g.Range(2, 8)
 	if thorough {
@@ -347,6 +353,12 @@ func (blEngine) Generate(p *sim.Plan, g *sim.Rng) {
 		nc.SysCPU, nc.SysMem = restC, restM
 		cfg.Nodes = append(cfg.Nodes, nc)
 	}
+	// ---- one run in eight is a history aimed at the anomaly gate: one node is pushed just over a (prod) high threshold for
+	// several rounds, relieved by an eviction, left alone, pushed over again (the rest of the cluster stays random)
+	if g.Bool(0.12) {
+		blGenGateRun(p, g, &cfg, nNodes, thorough)
+		return
+	}
 	// ---- ops
 	nodeName := func() string { return fmt.Sprintf("n%d", g.Intn(nNodes)) }
 	podKey := func() string {
@@ -430,6 +442,73 @@ func (blEngine) Generate(p *sim.Plan, g *sim.Rng) {
 	p.SetOps(ops)
 }
 
+// blGenGateRun rewrites the first pool with thresholds and the nodes n0 (the source) and n1 (an under-used target) and emits the ops.
+func blGenGateRun(p *sim.Plan, g *sim.Rng, cfg *blCfg, nNodes int, thorough bool) {
+	var pc *blPoolCfg
+	for k := range cfg.Pools {
+		if len(cfg.Pools[k].Low) > 0 {
+			pc = &cfg.Pools[k]
+			break
+		}
+	}
+	prod := g.Bool(0.6)
+	pc.Dev = false
+	pc.Low, pc.High = blThr{blCPU: 30}, blThr{blCPU: blPickF(g, 50, 60, 62.5)}
+	pc.PLow, pc.PHigh = nil, nil
+	if prod || g.Bool(0.3) {
+		pc.PLow, pc.PHigh = blThr{blCPU: 10}, blThr{blCPU: blPickF(g, 25, 30)}
+	}
+	pc.Anom = &blAnom{N: uint32(g.PickInt(2, 2, 3)), Norm: uint32(g.PickInt(1, 2, 3)), TimeoutS: g.PickInt(120, 300, 300)}
+	cfg.NodeFit, cfg.DryRun, cfg.NumNodes = g.Bool(0.15), false, 0
+	cfg.ExpS, cfg.CacheS = 300, g.PickInt(300, 600)
+	cfg.Incl, cfg.Excl, cfg.SelApps, cfg.EvPrio = nil, nil, nil, 0
+	// n0: four reported prod pods of 5% each + 15% system usage (between the thresholds); n1: 10% system usage only
+	var pods []blPodCfg
+	for _, q := range cfg.Pods {
+		if q.Node != "n0" && q.Node != "n1" {
+			pods = append(pods, q)
+		}
+	}
+	for i := 0; i < 2; i++ {
+		n := &cfg.Nodes[i]
+		n.Pool, n.Unsched, n.Taint = "a", false, false
+		if pc.Sel != "" {
+			n.Pool = pc.Sel
+		}
+		n.SysCPU, n.SysMem = n.CPU/10/blCPUUnit*blCPUUnit, n.Mem/10/blMemUnit*blMemUnit
+	}
+	n0 := &cfg.Nodes[0]
+	n0.SysCPU = n0.CPU * 15 / 100 / blCPUUnit * blCPUUnit
+	for i := 0; i < 4; i++ {
+		pods = append(pods, blPodCfg{Name: fmt.Sprintf("g%d", i), NS: "default", Node: "n0", Class: g.Pick("prod", "prod", "none"), ByLabel: g.Bool(0.5),
+			App: g.Pick("web", "db", "job"), CPU: n0.CPU * 5 / 100 / blCPUUnit * blCPUUnit, Mem: blMemUnit, ReqCPU: blCPUUnit, Tol: true})
+	}
+	cfg.Pods = pods
+	which := "high"
+	if prod {
+		which = "phigh"
+	}
+	ops := []blOp{{K: "reportall"}}
+	rounds := g.Range(5, 9)
+	if thorough {
+		rounds = g.Range(5, 12)
+	}
+	for rd := 0; rd < rounds; rd++ {
+		if rd == 0 || g.Bool(0.55) {
+			ops = append(ops, blOp{K: "aim", N: "n0", Which: which, Res: blCPU, Off: g.PickI64(1, 2, blCPUUnit, 2*blCPUUnit, 3*blCPUUnit)})
+		}
+		if g.Bool(0.1) {
+			ops = append(ops, blOp{K: "aim", N: fmt.Sprintf("n%d", g.Intn(nNodes)), Which: g.Pick("high", "low", "phigh"), Res: blCPU, Off: g.PickI64(-1, 1, blCPUUnit)})
+		}
+		ops = append(ops, blOp{K: "tick", D: g.PickI64(5, 10, 20, 30)}, blOp{K: "reportall"}, blOp{K: "balance"})
+		if g.Bool(0.25) {
+			ops = append(ops, blOp{K: "placeall"})
+		}
+	}
+	p.SetCfg(*cfg)
+	p.SetOps(ops)
+}
+
 // ---------------------------------------------------------------- execution state
 
 type blNode struct {
@@ -481,6 +560,7 @@ type blMetric struct {
 type blEvict struct {
 	key, node string
 	ok        bool
+	passNow   bool // the evictor's (stateful) filter accepted the pod at the moment of the Evict call
 }
 
 type blSim struct {
@@ -504,6 +584,16 @@ type blSim struct {
 	lastPool             [2]map[string]*blPoolCfg
 	otherPool            [2]map[string]bool // the cached detector entry was created while the node belonged to a pool with another anomaly condition
 	gapBelow, afterBelow [2]map[string]bool // the interruption included a round in which the node was measured and not above
+	// stale: the node's detector may still hold abnormal marks / the anomaly state of earlier rounds: set by every round in which the node
+	// is above, cleared when the entry expires, the plugin restarts, or the plugin's OWN eviction brought the node's estimate back under
+	// the high threshold and the stop condition was evaluated again (which resets the detector: continueEvictionCond -> resetNodesAsNormal)
+	stale, recovered [2]map[string]bool
+	recoveredNow     [2]map[string]bool // ... in the round being judged
+
+	// the evictor's state (per round) and what it answered
+	evCount   map[string]int  // successful evictions per limiting key
+	classPass map[string]bool // pod -> answer of the first Filter call of the round (= pod classification)
+	chkCount  map[string]int  // evCount replayed while the recorded evictions are judged in order
 }
 
 // ---- the two seams of LowNodeLoad: handle (pods per node, evictor) and the NodeMetric lister
@@ -533,14 +623,42 @@ func blEvictorAllows(cfg *blCfg, p *blPod) bool {
 	return true
 }
 
+// blLimitKey: the key of the stateful part of the evictor's filter ("" = no limit configured)
+func blLimitKey(cfg *blCfg, p *blPod) string {
+	switch cfg.LimitBy {
+	case "app":
+		return "app:" + p.App
+	case "ns":
+		return "ns:" + p.NS
+	case "node":
+		return "node:" + p.Node
+	}
+	return ""
+}
+
+func (s *blSim) evictorPasses(p *blPod, counts map[string]int) bool {
+	if !blEvictorAllows(&s.cfg, p) {
+		return false
+	}
+	if k := blLimitKey(&s.cfg, p); k != "" && counts[k] >= s.cfg.LimitK {
+		return false
+	}
+	return true
+}
+
 func (e *blEvictor) Filter(pod *corev1.Pod) bool {
-	p := e.s.pods[pod.Namespace+"/"+pod.Name]
+	key := pod.Namespace + "/" + pod.Name
+	p := e.s.pods[key]
 	if p == nil {
 		return false
 	}
-	return blEvictorAllows(&e.s.cfg, p)
+	ok := e.s.evictorPasses(p, e.s.evCount)
+	if _, had := e.s.classPass[key]; !had && e.s.inBalance {
+		e.s.classPass[key] = ok
+	}
+	return ok
 }
-func (e *blEvictor) PreEvictionFilter(pod *corev1.Pod) bool { return true }
+func (e *blEvictor) PreEvictionFilter(pod *corev1.Pod) bool { return e.Filter(pod) }
 func (e *blEvictor) Evict(ctx context.Context, pod *corev1.Pod, opts framework.EvictOptions) bool {
 	s := e.s
 	if !s.inBalance {
@@ -551,7 +669,16 @@ func (e *blEvictor) Evict(ctx context.Context, pod *corev1.Pod, opts framework.E
 		ok = false // eviction limiter / PDB / API error: this pod is not evicted
 		s.r.Probe("evict-refused")
 	}
-	s.evicts = append(s.evicts, blEvict{key: pod.Namespace + "/" + pod.Name, node: pod.Spec.NodeName, ok: ok})
+	ev := blEvict{key: pod.Namespace + "/" + pod.Name, node: pod.Spec.NodeName, ok: ok}
+	if p := s.pods[ev.key]; p != nil {
+		ev.passNow = s.evictorPasses(p, s.evCount)
+		if ok {
+			if k := blLimitKey(&s.cfg, p); k != "" {
+				s.evCount[k]++
+			}
+		}
+	}
+	s.evicts = append(s.evicts, ev)
 	s.r.Event("evict %s/%s from %s ok=%v", pod.Namespace, pod.Name, pod.Spec.NodeName, ok)
 	return ok
 }
@@ -1225,6 +1352,10 @@ func (s *blSim) balance() {
 	s.updateStreaks(judge, now)
 
 	s.evicts = nil
+	s.evCount, s.classPass, s.chkCount = map[string]int{}, map[string]bool{}, map[string]int{}
+	for v := 0; v < 2; v++ {
+		s.recoveredNow[v] = map[string]bool{}
+	}
 	s.inBalance = true
 	st := s.pl.Balance(r.T.Context(), nodes)
 	s.inBalance = false
@@ -1238,6 +1369,18 @@ func (s *blSim) balance() {
 	seen := map[string]bool{}
 	for i := range s.evicts {
 		s.checkEvict(&s.evicts[i], judge, seen)
+	}
+	// what the round leaves behind in the detectors (history classes of the recorded findings)
+	for _, name := range s.nodeNames {
+		for v := 0; v < 2; v++ {
+			switch {
+			case s.recoveredNow[v][name]:
+				s.stale[v][name], s.afterInt[v][name], s.afterBelow[v][name], s.recovered[v][name] = false, false, false, true
+				r.Probe("detector-reset-by-own-eviction")
+			case s.streak[v][name] > 0:
+				s.stale[v][name] = true
+			}
+		}
 	}
 	// reach counters on what the round looked like
 	anyHigh, anyLow := false, false
@@ -1317,8 +1460,9 @@ func (s *blSim) updateStreaks(judge map[string]*blTable, now time.Time) {
 			// is still cached (last seen above less than DetectorCacheTimeout ago) and ...
 			last, had := s.lastHi[v][name]
 			if had && now.Sub(last) <= ttl {
-				if s.streak[v][name] == 0 {
-					s.afterInt[v][name] = true // ... the node was NOT above in some round since then
+				if s.streak[v][name] == 0 && s.stale[v][name] {
+					// ... the node was NOT above in some round since then, and nothing has reset the detector meanwhile
+					s.afterInt[v][name], s.recovered[v][name] = true, false
 					if s.gapBelow[v][name] {
 						s.afterBelow[v][name] = true
 					}
@@ -1328,6 +1472,7 @@ func (s *blSim) updateStreaks(judge map[string]*blTable, now time.Time) {
 				}
 			} else {
 				s.afterInt[v][name], s.otherPool[v][name], s.afterBelow[v][name] = false, false, false
+				s.stale[v][name], s.recovered[v][name] = false, false
 			}
 			s.gapBelow[v][name] = false
 			if a := t.pool.Anom; a != nil && a.N > 1 {
@@ -1362,6 +1507,19 @@ func (s *blSim) checkEvict(e *blEvict, judge map[string]*blTable, seen map[strin
 	p := s.pods[e.key]
 	if p == nil || p.Node != e.node || p.Node == "" {
 		r.Fail("evicted-unknown-pod", "", "Evict(%s) on node %q: no such pod is assigned to that node", e.key, e.node)
+	}
+	// the pod passes the evictor's filter at the moment of the call (the evictor's limits are stateful)
+	if !e.passNow && blEvictorAllows(&s.cfg, p) {
+		r.Fail("filtered-pod", "evictor-limit-at-eviction-time", "Evict(%s): the evictor's filter no longer accepts this pod at the moment of the call: %d eviction(s) for %s already in this round, limit %d",
+			e.key, s.chkCount[blLimitKey(&s.cfg, p)], blLimitKey(&s.cfg, p), s.cfg.LimitK)
+	}
+	if e.ok {
+		if k := blLimitKey(&s.cfg, p); k != "" {
+			s.chkCount[k]++
+			if s.chkCount[k] >= s.cfg.LimitK {
+				r.Probe("evictor-limit-reached")
+			}
+		}
 	}
 	if seen[e.key] {
 		r.Fail("evicted-twice", "", "Evict(%s) twice in one round", e.key)
@@ -1435,6 +1593,10 @@ func (s *blSim) checkEvict(e *blEvict, judge map[string]*blTable, seen map[strin
 				detail = "after-round-below-threshold"
 			} else if s.afterInt[v][e.node] {
 				detail = "after-unmeasured-round"
+			} else if s.recovered[v][e.node] {
+				// the previous streak ended because the plugin's own eviction brought the node back under the threshold and the
+				// detector was reset: the count must start again (not part of the recorded finding)
+				detail = "recovered-by-own-eviction"
 			}
 			r.Fail("not-consecutive", detail, "Evict(%s) from node %s: %s usage has been above the high threshold for %d consecutive round(s) only, ConsecutiveAbnormalities=%d (round %d)",
 				e.key, e.node, vn, got, a.N, s.round)
@@ -1532,6 +1694,42 @@ func (s *blSim) checkEvict(e *blEvict, judge map[string]*blTable, seen map[strin
 		if !stillAbove {
 			r.Probe("node-brought-under-threshold")
 		}
+		// Did this eviction bring the node definitely under the threshold AND was the stop condition evaluated once more
+		// (it is evaluated before every further removable pod of the node; it resets the node's detector)? Only claimed when certain.
+		definitelyUnder := true
+		for _, res := range t.res[v] {
+			if est[res] > row.higB[v][res].lo {
+				definitelyUnder = false
+			}
+		}
+		if definitelyUnder && !s.cfg.NodeFit {
+			called := map[string]bool{}
+			for i := range s.evicts {
+				if s.evicts[i].node == e.node {
+					called[s.evicts[i].key] = true
+				}
+				if &s.evicts[i] == e {
+					break
+				}
+			}
+			removable, iterated := 0, len(called)
+			for _, k := range s.sortedPodKeys() {
+				q := s.pods[k]
+				if q.Node != e.node || (v == 1 && !q.isProd()) || !s.classPass[k] {
+					continue
+				}
+				if len(s.cfg.Incl) > 0 && !blHas(s.cfg.Incl, q.NS) || blHas(s.cfg.Excl, q.NS) || (len(s.cfg.SelApps) > 0 && !blHas(s.cfg.SelApps, q.App)) {
+					continue
+				}
+				removable++
+				if !called[k] && !s.evictorPasses(q, s.chkCount) {
+					iterated++ // may have been skipped by the re-check before this eviction
+				}
+			}
+			if removable > iterated {
+				s.recoveredNow[v][e.node] = true
+			}
+		}
 	}
 }
 
@@ -1556,6 +1754,7 @@ func (blEngine) Execute(r *sim.Run) {
 		s.streak[v], s.lastHi[v], s.afterInt[v] = map[string]int{}, map[string]time.Time{}, map[string]bool{}
 		s.lastPool[v], s.otherPool[v] = map[string]*blPoolCfg{}, map[string]bool{}
 		s.gapBelow[v], s.afterBelow[v] = map[string]bool{}, map[string]bool{}
+		s.stale[v], s.recovered[v], s.recoveredNow[v] = map[string]bool{}, map[string]bool{}, map[string]bool{}
 	}
 	s.idx = cache.NewIndexer(cache.MetaNamespaceKeyFunc, cache.Indexers{})
 	for _, nc := range s.cfg.Nodes {
@@ -1574,8 +1773,8 @@ func (blEngine) Execute(r *sim.Run) {
 		s.pods[p.key()] = p
 	}
 	s.newPlugin()
-	r.Sample("cfg nodefit=%v dryrun=%v numberOfNodes=%d expire=%ds cache=%ds incl=%v excl=%v apps=%v evictorPrio=%d faults=%v", s.cfg.NodeFit, s.cfg.DryRun,
-		s.cfg.NumNodes, s.cfg.ExpS, s.cfg.CacheS, s.cfg.Incl, s.cfg.Excl, s.cfg.SelApps, s.cfg.EvPrio, r.Plan.Faults)
+	r.Sample("cfg nodefit=%v dryrun=%v numberOfNodes=%d expire=%ds cache=%ds incl=%v excl=%v apps=%v evictorPrio=%d evictorLimit=%d per %q faults=%v", s.cfg.NodeFit, s.cfg.DryRun,
+		s.cfg.NumNodes, s.cfg.ExpS, s.cfg.CacheS, s.cfg.Incl, s.cfg.Excl, s.cfg.SelApps, s.cfg.EvPrio, s.cfg.LimitK, s.cfg.LimitBy, r.Plan.Faults)
 	for _, pc := range s.cfg.Pools {
 		r.Sample("pool %s sel=%q dev=%v low=%v high=%v prodLow=%v prodHigh=%v anomaly=%+v", pc.Name, pc.Sel, pc.Dev, pc.Low, pc.High, pc.PLow, pc.PHigh, pc.Anom)
 	}
